@@ -58,7 +58,7 @@ def main():
         "engines": [{"name": "tlc", "path": "/verif/spec", "serves_properties": props,
                      "kind_free_text": "TLA+ specifications (Dna, Dbg, *Impl models, Trace* trace specs) checked with TLC 1.8.0; Rust harness /verif/harness records events from / replays TLC behaviours into the real crate; python driver /verif/check"}],
         "checks": checks,
-        "notes": "exit 0 held / 1 VIOLATION / 2 tool error. VERIF_SEED seeds every random choice. Known findings: /verif/known_findings.json (all six defects found are fixed in /repo by 'fix:' commits).",
+        "notes": "exit 0 held / 1 VIOLATION / 2 tool error. VERIF_SEED seeds every random choice. Known findings: /verif/known_findings.json (all eight defects found are fixed in /repo by 'fix:' commits).",
         "not_applicable": na,
     }
     json.dump(m, open(os.path.join(os.path.dirname(__file__), "..", "MANIFEST.json"), "w"), indent=1)
